@@ -5,7 +5,7 @@ set -u
 A=$1
 cd /tmp/ag
 for sub in lean harness; do
-  (cd /tmp/ag && diff -ruN -x .lake -x Consts.lean -x anchors.json -x go.sum -x lake-manifest.json base/$sub $(realpath --relative-to=/tmp/ag $A)/$sub) > /tmp/ag/patch.$sub.$(basename $A).diff
+  (cd /tmp/ag && diff -ruN -x .lake -x Consts.lean -x anchors.json -x go.sum -x lake-manifest.json -x Pools.lean -x AsmConsts.lean ${BASE:-base}/$sub $(realpath --relative-to=/tmp/ag $A)/$sub) > /tmp/ag/patch.$sub.$(basename $A).diff
   n=$(grep -c '^+++ ' /tmp/ag/patch.$sub.$(basename $A).diff)
   echo "$sub: $n files changed"
   grep '^+++ ' /tmp/ag/patch.$sub.$(basename $A).diff | awk '{print "   " $2}'
